@@ -13,7 +13,7 @@ import lib
 from lib import clist, cstr, cbool
 
 warnings.filterwarnings("ignore")
-N = {"quick": 2600, "thorough": 40000}
+N = {"quick": 2000, "thorough": 12000}
 
 # ------------------------------------------------------------------------------------------ what is read from /repo
 
@@ -53,7 +53,8 @@ def forwarding_calls():
                     for st in node.body:
                         if isinstance(st, ast.Return) and isinstance(st.value, ast.Call) and isinstance(st.value.func, ast.Attribute):
                             call = st.value
-                            args = [ast.unparse(a) for a in call.args] + ["%s=%s" % (k.arg, ast.unparse(k.value)) for k in call.keywords]
+                            # positional arguments by position, keyword arguments by keyword: the names of locals do not matter
+                            args = ["#%d" % i for i, _ in enumerate(call.args)] + sorted(str(k.arg) for k in call.keywords)
                             out.append((fn.name, call.func.attr, args))
     return out
 
@@ -357,8 +358,8 @@ ORDERED_WIN = ["cumsum", "cummax", "cummin", "shift", "rank", "cumcount"]
 
 
 class StepGen:
-    def __init__(self, rng, cols, colty, extra_names, win_hint=None):
-        self.rng, self.cols, self.colty = rng, list(cols), colty
+    def __init__(self, rng, cols, colty, extra_names, win_hint=None, prefer_one=False):
+        self.rng, self.cols, self.colty, self.prefer_one = rng, list(cols), colty, prefer_one
         self.nums = [c for c in cols if colty.get(c) in ("int", "float")]
         self.extra = [c for c in extra_names if c not in cols]          # names that exist somewhere upstream but not here
         self.win_hint = win_hint                                          # window of the prefix's top extend (to provoke merges)
@@ -396,6 +397,8 @@ class StepGen:
         st = {"op": "extend", "ops": [], "partition_by": None, "order_by": None, "reverse": None}
         keyspace = [c for c in cols if self.colty.get(c) != "str"] or cols
         flavour = rng.choice(["plain", "plain", "window", "ordered", "one"]) if want in ("ok", "unknown_column", "use_and_produce", "duplicate_name") else None
+        if want == "ok" and self.prefer_one and rng.random() < 0.35:
+            flavour = "one"          # whole-table window on top of a plain extend: the merge test must keep the two steps apart
         if want in ("change_window_column", "not_aggregating_bare", "not_aggregating_op", "too_complex", "window_spec"):
             flavour = rng.choice(["window", "ordered"])
         if want == "window_kind":
@@ -451,7 +454,9 @@ class StepGen:
             else:   # window / one
                 r = rng.random()
                 a = self.num(avoid)
-                if a is None or r < 0.15:
+                if flavour == "one" and self.prefer_one:
+                    e = rng.choice(["_size()", "_count()"])          # does not imply a window by itself
+                elif a is None or r < (0.5 if flavour == "one" else 0.15):
                     e = rng.choice(["_size()", "_count()", "(1).sum()"])
                 else:
                     e = "%s.%s()" % (a, rng.choice(AGG_BOTH + ["any_value", "first", "last"]))
@@ -534,7 +539,7 @@ class StepGen:
             k = self.fresh(taken)
             taken.append(k)
             if not vals or rng.random() < 0.2:
-                e = rng.choice(["_size()", "_count()", "(1).sum()"])
+                e = rng.choice(["_size()", "_size()", "(1).sum()"])
             else:
                 e = "%s.%s()" % (rng.choice(vals), rng.choice(AGG_BOTH + ["any_value"]))
             ops.append([k, e])
@@ -558,7 +563,7 @@ class StepGen:
         elif want == "not_aggregating_bare":
             ops[0][1] = rng.choice([a if a != "(1)" else "1", "1"])
         elif want == "not_aggregating_op":
-            ops[0][1] = rng.choice(["(%s).abs()", "-%s", "(%s).is_null()", "%s.rank()", "%s.first()"]) % a
+            ops[0][1] = rng.choice(["(%s).abs()", "-%s", "(%s).is_null()", "%s.rank()", "(%s).coalesce(0)"]) % a
         elif want == "too_complex":
             ops[0][1] = rng.choice(["(%s + 1).sum()", "%s + 1", "(-%s).max()", "%s.sum() + 1"]) % a
         elif want == "window_kind":
@@ -892,7 +897,7 @@ def prefix_shape(node):
     while node.node_name in ("OrderRowsNode", "SelectColumnsNode", "DropColumnsNode", "ExtendNode"):
         out.append(node.node_name[:-4] + ("(limit)" if node.node_name == "OrderRowsNode" and node.limit is not None else ""))
         node = node.sources[0]
-    return ">".join(out) or "other"
+    return ">".join(out[:2]) + (">.." if len(out) > 2 else "") or "other"
 
 
 # ------------------------------------------------------------------------------------------ one probe
@@ -943,6 +948,10 @@ class Probe:
         pipes = self.pipes
         tmap = {t["name"]: t for t in self.tables}
         self.prefix = pipes.build(self.ps, tmap)
+        try:
+            self.prefix_text = " ".join(self.prefix.to_python(strict=True, pretty=False).split())
+        except Exception:
+            self.prefix_text = json.dumps(pipes.to_json(self.ps), sort_keys=True)
         cols = list(self.prefix.column_names)
         self.cols = cols
         step = self.step
@@ -976,7 +985,9 @@ class Probe:
                 pipes.eval_pandas(node, frames)
             except Exception as e:
                 self.eval_error = "%s: %s" % (type(e).__name__, str(e)[:160])
-                is_col = VALIDATION_MSG.search(str(e)) or (isinstance(e, KeyError) and e.args and isinstance(e.args[0], str))
+                # a KeyError naming a column that IS declared is an executor problem, not a construction rule caught too late
+                known_names = set(cols) | set(node.column_names)
+                is_col = VALIDATION_MSG.search(str(e)) or (isinstance(e, KeyError) and e.args and isinstance(e.args[0], str) and e.args[0] not in known_names)
                 if not self.viol and is_col:
                     try:                                   # is it the prefix that fails, not the step?
                         pipes.eval_pandas(self.prefix, frames)
@@ -988,7 +999,7 @@ class Probe:
         return self
 
     def replay_dict(self, what):
-        return {"kind": "impl-violation", "what": what, "tables": self.tables, "prefix_script": self.pipes.to_json(self.ps), "prefix": str(self.prefix),
+        return {"kind": "impl-violation", "what": what, "tables": self.tables, "prefix_script": self.pipes.to_json(self.ps), "prefix": self.prefix_text,
                 "prefix_columns": self.cols, "step": {k: v for k, v in self.step.items() if k != "ast"}, "term_form": self.term_form, "violated_rules": sorted(self.viol),
                 "real_builder_on_prefix": list(self.on_prefix), "real_builder_on_bare_table": list(self.on_bare), "evaluation_error": self.eval_error}
 
@@ -1021,6 +1032,9 @@ def shrink_probe(pr, sig):
 
 def report(chk, pr):
     for what, sig in pr.failures:
+        if any(lib.match_sig(f.get("signature", {}), sig) for f in chk.known):
+            chk.impl_violation(what, pr.replay_dict(what), sig)          # a listed finding: counted, not shrunk
+            continue
         small = shrink_probe(pr, sig)
         w2 = [w for w, s in small.failures if s.get("oracle") == sig.get("oracle")]
         chk.impl_violation(w2[0] if w2 else what, small.replay_dict(w2[0] if w2 else what), sig)
@@ -1030,6 +1044,30 @@ def report(chk, pr):
 
 PRE = ("From Coq Require Import List Bool String.\nImport ListNotations.\nOpen Scope string_scope.\n"
        "From DA Require Import Base.PyRT Base.Cases Model.Builder Model.BuilderCases.\nOpen Scope list_scope.\n")
+
+
+def tables_preamble(T):
+    """the tables read from /repo, compiled once (cases/C26tables.vo) and imported by every case file"""
+    cdir = os.path.join(lib.COQ, "cases")
+    os.makedirs(cdir, exist_ok=True)
+    base = os.path.join(cdir, "C26tables")
+    with open(base + ".v", "w") as f:
+        f.write(PRE + "Definition T0 := %s.\n" % c_tables(T))
+    rc, out, _ = lib.sh("coqc -Q theories DA -Q cases DAcases cases/C26tables.v", cwd=lib.COQ, timeout=300)
+
+    def cleanup():
+        for ext in (".v", ".vo", ".vok", ".vos", ".glob"):
+            try:
+                os.remove(base + ext)
+            except OSError:
+                pass
+        try:
+            os.remove(os.path.join(cdir, ".C26tables.aux"))
+        except OSError:
+            pass
+    if rc != 0:                      # fall back to an inline definition (slower, same meaning)
+        return PRE + "Definition T0 := %s.\n" % c_tables(T), cleanup
+    return PRE + "From DAcases Require Import C26tables.\n", cleanup
 
 
 def gen_case(chk, pipes, T):
@@ -1053,7 +1091,7 @@ def gen_case(chk, pipes, T):
     for c in cols:
         colty.setdefault(c, "float")
     extra = sorted((upstream_names(ps) | {c for c, _ in d1["spec"]} | {c for c, _ in d2["spec"]}) - set(cols))
-    sg = StepGen(rng, cols, colty, extra, win_hint=win)
+    sg = StepGen(rng, cols, colty, extra, win_hint=win, prefer_one=form in ("extend_plain", "order_over_extend"))
     kind = rng.choice(KIND_WEIGHTS)
     want = rng.choice(KINDS[kind])
     if kind == "extend":
@@ -1080,9 +1118,13 @@ def gen_case(chk, pipes, T):
 
 
 def run(chk):
-    import pipes
+    import pipes, time
     n = N[chk.tier]
+    t0 = time.time()
     chk.prove(["G_MergeOps"], extra_vo=["theories/Model/BuilderCases.vo"])
+    timing = chk.cov.setdefault("timing_s", {})
+    timing["prove"] = round(time.time() - t0, 1)
+    t0 = time.time()
     chk.cov["trusted_base"] = [
         "Coq 8.16.1 kernel + vm_compute",
         "hand model Model/Builder.v of the validation in view_representations.py (builder methods + node constructors) and expr_parse.parse_assignments_in_context; "
@@ -1095,8 +1137,7 @@ def run(chk):
     chk.assumptions = ["the prefix is a valid pipeline: distinct, non-empty declared columns (NoDup cols, cols <> []); the right operand of join/concat likewise",
                        "dictionary arguments have distinct keys (Python dict); an extend has at least one assignment (otherwise the builder returns the prefix unchanged)",
                        "guard of the known finding: in a windowed extend / a project every operator application at the top of an assignment is catalogued as a window / aggregation function "
-                       "(the builder has no such table: Props/C26.v C26_rejects_iff_rule_violated_refuted)",
-                       "SelectRowsNode validates the columns of its expression (pending fix C26-select-rows-unknown-column)"]
+                       "(the builder has no such table: Props/C26.v C26_rejects_iff_rule_violated_refuted)"]
     chk.cov["rule"] = ("random valid prefixes (pipes.Gen, 0-3 steps over two random tables) forced to end in: a table, a random step, order_rows without/with limit (also doubled, and over "
                        "extend/select), select after select, select after drop, drop, plain extend, windowed extend, ordered-window extend; x one candidate step of every kind "
                        "(extend, project, select_rows, select/drop/rename/map columns, order_rows, natural_join, concat_rows), conforming or aimed at one named rule in one argument position; "
@@ -1130,11 +1171,13 @@ def run(chk):
             chk.dist("generator_error:" + type(e).__name__)
             continue
         probes.append(pr)
+    timing["generate_and_run_real_builder"] = round(time.time() - t0, 1)
+    t0 = time.time()
     terms, meta = [], []
     aimed_hit = aimed = 0
     for i, pr in enumerate(probes):
         st = pr.step
-        key = (str(pr.prefix), json.dumps({k: v for k, v in st.items() if k != "ast"}, sort_keys=True, default=str), pr.term_form)
+        key = (pr.prefix_text, json.dumps({k: v for k, v in st.items() if k != "ast"}, sort_keys=True, default=str), pr.term_form)
         chk.count(key, nontrivial=(pr.ps["op"] != "table" or bool(pr.viol)))
         chk.dist("form:" + pr.meta.get("form", "?"))
         chk.dist("shape:" + prefix_shape(pr.prefix))
@@ -1150,21 +1193,30 @@ def run(chk):
             aimed += 1
             aimed_hit += (want in ("ok", "common_nonkey_unchecked")) == (not pr.viol) and (want in ("ok", "common_nonkey_unchecked") or want in pr.viol)
         if i < 5:
-            chk.sample({"prefix": str(pr.prefix), "step": {k: v for k, v in st.items() if k != "ast"}, "violated": sorted(pr.viol), "builder": pr.on_prefix[0], "columns": pr.on_prefix[1]})
+            chk.sample({"prefix": pr.prefix_text, "step": {k: v for k, v in st.items() if k != "ast"}, "violated": sorted(pr.viol), "builder": pr.on_prefix[0], "columns": pr.on_prefix[1]})
         if pr.failures:
             report(chk, pr)
-        d = {"prefix": str(pr.prefix), "prefix_columns": pr.cols, "step": {k: v for k, v in st.items() if k != "ast"}, "term_form": pr.term_form}
+        d = {"prefix": pr.prefix_text, "prefix_columns": pr.cols, "step": {k: v for k, v in st.items() if k != "ast"}, "term_form": pr.term_form}
         terms.append("(%s, %s, %s, %s)" % (prefix_term(pr.prefix), c_strs(pr.cols), c_step(st), c_result(pr.on_prefix)))
         meta.append(dict(d, on="prefix", observed=list(pr.on_prefix)))
-        terms.append("(PNode %s, %s, %s, %s)" % (c_strs(pr.cols), c_strs(pr.cols), c_step(st), c_result(pr.on_bare)))
-        meta.append(dict(d, on="bare table", observed=list(pr.on_bare)))
+        if pr.prefix.node_name in ("OrderRowsNode", "SelectColumnsNode", "DropColumnsNode", "ExtendNode"):     # otherwise the same case again
+            terms.append("(PNode %s, %s, %s, %s)" % (c_strs(pr.cols), c_strs(pr.cols), c_step(st), c_result(pr.on_bare)))
+            meta.append(dict(d, on="bare table", observed=list(pr.on_bare)))
     chk.cov["generator_aim"] = {"aimed": aimed, "hit": aimed_hit}
+    chk.cov["oracle"] = {"accept_iff_conforming": len(probes), "independent_of_simplification": len(probes),
+                         "no_late_rejection_evaluated": sum(1 for p in probes if p.on_prefix[0] == "accept" and p.meta.get("evaluable", True)),
+                         "probes_failing_some_oracle": sum(1 for p in probes if p.failures),
+                         "conforming_steps": sum(1 for p in probes if not p.viol), "violating_steps": sum(1 for p in probes if p.viol)}
+    timing["oracle_reports_and_shrinking"] = round(time.time() - t0, 1)
+    t0 = time.time()
     if os.path.exists(os.path.join(lib.COQ, "theories/Model/BuilderCases.vo")):
-        pre = PRE + "Definition T0 := %s.\n" % c_tables(T)
-        failing, errors, nchecked = lib.run_case_files("C26", pre, terms, "check_cases T0", per_file=300)
+        pre, cleanup = tables_preamble(T)
+        failing, errors, nchecked = lib.run_case_files("C26", pre, terms, "check_cases T0", per_file=400, timeout=900 if chk.tier == "quick" else 3000)
+        cleanup()
         chk.cov["correspondence"] = {"what": "apply_step (Model/Builder.v) vs the real builder: accept/reject + column_names, on the prefix as built and on a bare table",
                                      "cases": len(terms), "checked_in_coq": nchecked, "disagreements": len(failing), "errors": errors[:2]}
         chk.cov["traces_validated_against_impl"] = nchecked
+        timing["coq_case_files"] = round(time.time() - t0, 1)
         if errors:
             chk.corr_break("correspondence case files failed to compile", errors[0])
         for i in failing[:3]:
@@ -1212,7 +1264,7 @@ def replay(path):
     if "prefix_script" in r and "step" in r:
         T = read_tables()
         pr = Probe(pipes, T, r["tables"], r["prefix_script"], r["step"], r.get("term_form", False)).run()
-        print("prefix:", pr.prefix)
+        print("prefix:", pr.prefix_text)
         print("declared columns:", pr.cols)
         print("step:", {k: v for k, v in pr.step.items() if k != "ast"})
         print("rules violated (from the declared columns):", sorted(pr.viol))
